@@ -2,13 +2,272 @@
 (***************************************************************************)
 (* Wrappers and renderers layered on the core table model: the full Apply, *)
 (* and the relations between a render call's logged result and what the    *)
-(* properties allow (C03-C10, C14).                                        *)
+(* properties allow (C03-C10, C14, C15).                                   *)
+(*                                                                         *)
+(* Each renderer has a declarative part (what a correct output is, at the  *)
+(* level the property fixes it) used as the oracle of trace validation,    *)
+(* and an implementation-shaped emitter (the code's write sequence) used   *)
+(* by the bounded models (Writer faults, JSON comma machine).              *)
 (***************************************************************************)
 EXTENDS Tabular
 
-Apply(st, op, fired) == ApplyCore(st, op, fired)
+-----------------------------------------------------------------------------
+(* String helpers (TLC strings support Len, \o, SubSeq and =) *)
 
-BadResMore(s, ns, op, res) == {}
+RECURSIVE Rep(_, _)
+Rep(s, n) == IF n <= 0 THEN "" ELSE s \o Rep(s, n - 1)
+Spaces(n) == Rep(" ", n)
+StartsWith(s, p) == Len(s) >= Len(p) /\ SubSeq(s, 1, Len(p)) = p
+Drop(s, n) == SubSeq(s, n + 1, Len(s))
+
+RECURSIVE SumSeq(_)
+SumSeq(s) == IF s = <<>> THEN 0 ELSE Head(s) + SumSeq(Tail(s))
+
+-----------------------------------------------------------------------------
+(* Wrappers *)
+(*                                                                         *)
+(* A wrapper record: [kind, over (core table id), dec (decoration as       *)
+(* logged: boxless, empty, g = glyph per drawing field), html options].    *)
+
+DefaultDec == [boxless |-> 0, empty |-> 0,
+               g |-> [CrossPiece |-> "+", HOuter |-> "=", HRule |-> "-", VHeader |-> "#", VBodyBorder |-> "#",
+                      VBodyInner |-> "|", TopLeft |-> "+", TopRight |-> "+", BottomLeft |-> "+", BottomRight |-> "+",
+                      LeftBodyRule |-> "+", RightBodyRule |-> "+", HTopDown |-> "+", BTopDown |-> "+", BBottomUp |-> "+",
+                      HBCross |-> "+", HBLeft |-> "+", HBRight |-> "+"]]
+
+DecOf(op) == IF "dec" \in DOMAIN op THEN op.dec ELSE DefaultDec
+
+NoHtml == [id |-> "", class |-> "", caption |-> "", gen |-> 0, genvals |-> <<>>]
+
+KindOfVia(via) == CASE via = "texttable" -> "text" [] via = "markdown" -> "md" [] OTHER -> via
+
+NewWrapper(kind, over, dec) == [kind |-> kind, over |-> over, dec |-> dec, html |-> NoHtml]
+
+DoNewTableW(st, op) ==
+  LET s1 == DoNewTable(st, op) IN
+  IF op.via = "core" THEN s1
+  ELSE [s1 EXCEPT !.wr = Append(@, NewWrapper(IF "rkind" \in DOMAIN op THEN op.rkind ELSE KindOfVia(op.via),
+                                              Len(s1.tbl), DecOf(op)))]
+
+OverTable(st, o) == IF "w" \in DOMAIN o THEN st.wr[o.w].over ELSE o.t
+
+DoWrap(st, op) ==
+  [st EXCEPT !.wr = Append(@, NewWrapper(IF "rkind" \in DOMAIN op THEN op.rkind ELSE op.kind,
+                                         OverTable(st, op.over), DecOf(op)))]
+
+DoDecor(st, op) == [st EXCEPT !.wr[op.w].dec = DecOf(op)]
+
+DoHtmlOpts(st, op) ==
+  [st EXCEPT !.wr[op.w].html = [id |-> op.id, class |-> op.class, caption |-> op.caption,
+                                gen |-> op.gen, genvals |-> op.genvals]]
+
+\* the core table a render call works on, its format, decoration and html options
+RenderTbl(st, op) == IF "w" \in DOMAIN op THEN st.wr[op.w].over
+                     ELSE IF "ow" \in DOMAIN op THEN st.wr[op.ow].over ELSE op.t
+RenderKind(st, op) == IF "w" \in DOMAIN op THEN st.wr[op.w].kind
+                      ELSE IF "pkg" \in DOMAIN op THEN op.pkg ELSE op.rkind
+RenderDec(st, op) == IF "w" \in DOMAIN op THEN st.wr[op.w].dec ELSE DecOf(op)
+RenderHtml(st, op) == IF "w" \in DOMAIN op THEN st.wr[op.w].html ELSE NoHtml
+
+\* a render runs one pass of render-time callbacks on the core table
+DoRender(st, op, fired) == Fire(st, RenderTbl(st, op), 0, fired)
+
+SlotsOfAll(st, op) ==
+  IF op.op \in {"render", "renderfault"} THEN SlotsRenderPass(st, RenderTbl(st, op)) ELSE SlotsOf(st, op)
+
+Apply(st, op, fired) ==
+  CASE op.op = "newtable" -> DoNewTableW(st, op)
+    [] op.op = "wrap"     -> DoWrap(st, op)
+    [] op.op = "decor"    -> DoDecor(st, op)
+    [] op.op = "htmlopts" -> DoHtmlOpts(st, op)
+    [] op.op = "render"   -> DoRender(st, op, fired)
+    [] OTHER -> ApplyCore(st, op, fired)
+
+-----------------------------------------------------------------------------
+(* Text table layout (C03, C04) *)
+
+AlignOf(v) == CASE v = "vL" -> "left" [] v = "vR" -> "right" [] v = "vC" -> "centre" [] OTHER -> "unset"
+
+\* effective alignment of column i: own setting, else the column-0 default, else left
+EffAlign(T, i) ==
+  LET own == AlignOf(MapGet(T.cols[i + 1].props, "k_align"))
+      def == AlignOf(MapGet(T.cols[1].props, "k_align"))
+  IN IF own # "unset" THEN own ELSE IF def # "unset" THEN def ELSE "left"
+
+\* number of slot lines a cell occupies: its text lines, or its (declared) height if larger
+CellSlots(c) == Max2(Len(c.lines), CellHeight(c))
+
+\* display width used to lay out line j of a cell: a single-line item that declares
+\* its width is laid out as exactly that wide; otherwise the line's own measure
+LineW(c, j) == IF Len(c.lines) = 1 /\ HasCap(c.snap, "Width") THEN CellWidth(c) ELSE c.lines[j][2]
+
+ColW(st, T, i) ==
+  SetMax({0}
+    \cup (IF T.hdrp /\ i <= Len(T.hdr) THEN {CellWidth(T.hdr[i])} ELSE {})
+    \cup {CellWidth(st.row[r].cells[i]) : r \in {x \in Range(T.rows) : i <= Len(st.row[x].cells)}})
+
+RowH(cells, n) == SetMax({1} \cup {CellSlots(cells[i]) : i \in 1..Min2(Len(cells), n)})
+
+Pad(s, w, colw, al) ==
+  LET p == Max2(colw - w, 0) IN
+  CASE al = "left"   -> s \o Spaces(p)
+    [] al = "right"  -> Spaces(p) \o s
+    [] al = "centre" -> Spaces(p \div 2) \o s \o Spaces(p - (p \div 2))
+
+\* the padded slot of column i on line j of a row (cells = the row's cells)
+SlotStr(st, T, cells, i, j) ==
+  IF i > Len(cells) \/ j > Len(cells[i].lines) THEN Spaces(ColW(st, T, i))
+  ELSE Pad(cells[i].lines[j][1], LineW(cells[i], j), ColW(st, T, i), EffAlign(T, i))
+
+\* line kinds of the whole output: <<"rule">> or <<"content", cells, j>>
+TextKinds(st, T, boxless) ==
+  LET n == T.ncols
+      content(cells) == [j \in 1..RowH(cells, n) |-> <<"content", cells, j>>]
+      rule == IF boxless THEN <<>> ELSE << <<"rule">> >>
+  IN rule
+     \o (IF T.hdrp THEN content(T.hdr) \o rule ELSE <<>>)
+     \o Flatten([k \in 1..Len(T.rows) |->
+          IF st.row[T.rows[k]].sep THEN rule ELSE content(st.row[T.rows[k]].cells)])
+     \o rule
+
+\* pieces of a line: "g" = any glyph of the decoration; "s" = literal string;
+\* "h" = n copies of one glyph
+RECURSIVE MatchPieces(_, _, _)
+MatchPieces(s, ps, G) ==
+  IF ps = <<>> THEN s = ""
+  ELSE LET p == Head(ps) IN
+    CASE p[1] = "s" -> StartsWith(s, p[2]) /\ MatchPieces(Drop(s, Len(p[2])), Tail(ps), G)
+      [] p[1] = "g" -> \E g \in G : StartsWith(s, g) /\ MatchPieces(Drop(s, Len(g)), Tail(ps), G)
+      [] p[1] = "h" -> \E g \in G : LET r == Rep(g, p[2]) IN
+                          StartsWith(s, r) /\ MatchPieces(Drop(s, Len(r)), Tail(ps), G)
+
+ContentPieces(st, T, cells, j, boxless) ==
+  LET n == T.ncols IN
+  IF boxless
+  THEN Flatten([i \in 1..n |-> (IF i > 1 THEN << <<"s", " ">> >> ELSE <<>>) \o << <<"s", SlotStr(st, T, cells, i, j)>> >>])
+  ELSE << <<"g">> >> \o Flatten([i \in 1..n |-> << <<"s", " " \o SlotStr(st, T, cells, i, j) \o " ">>, <<"g">> >>])
+
+RulePieces(st, T) ==
+  << <<"g">> >> \o Flatten([i \in 1..T.ncols |-> << <<"h", ColW(st, T, i) + 2>>, <<"g">> >>])
+
+\* display width every line must have (by the library's own measure): dividers and
+\* padding plus the column widths; a slot holding a width-declaring single-line item
+\* measures as its text does, not as declared
+SlotMeasured(st, T, cells, i, j) ==
+  IF i > Len(cells) \/ j > Len(cells[i].lines) THEN ColW(st, T, i)
+  ELSE cells[i].lines[j][2] + Max2(ColW(st, T, i) - LineW(cells[i], j), 0)
+
+LineWidth(st, T, k, boxless) ==
+  LET n == T.ncols
+      cols == IF k[1] = "rule" THEN [i \in 1..n |-> ColW(st, T, i)]
+              ELSE [i \in 1..n |-> SlotMeasured(st, T, k[2], i, k[3])]
+  IN IF boxless THEN SumSeq(cols) + (n - 1) ELSE SumSeq(cols) + 3 * n + 1
+
+GlyphSet(dec) == {dec.g[f] : f \in DOMAIN dec.g} \ {""}
+
+\* which clause fails for which line (for the report); {} = the output is right
+TextBad(st, t, dec, res) ==
+  LET T == st.tbl[t]
+      boxless == dec.boxless = 1
+      kinds == TextKinds(st, T, boxless)
+      L == res.lines.l
+      G == GlyphSet(dec)
+  IN IF res.lines.rest # "" THEN {<<"no final newline">>}
+     ELSE IF Len(L) # Len(kinds) THEN {<<"line count", Len(kinds), Len(L)>>}
+     ELSE {<<"line", i, kinds[i][1]>> : i \in {k \in DOMAIN L :
+              \/ ~MatchPieces(L[k][1],
+                              IF kinds[k][1] = "rule" THEN RulePieces(st, T)
+                              ELSE ContentPieces(st, T, kinds[k][2], kinds[k][3], boxless), G)
+              \/ L[k][2] # LineWidth(st, T, kinds[k], boxless)}}
+
+\* a complete decoration: boxless, or every drawing glyph present
+DecComplete(dec) == dec.boxless = 1 \/ \A f \in DOMAIN dec.g : dec.g[f] # ""
+
+-----------------------------------------------------------------------------
+(* Implementation-shaped text emitter (texttable/render.go, decoration/emit.go): *)
+(* the two passes of the code, producing the lines it writes.  The bounded      *)
+(* models check that what this emitter produces satisfies the declarative      *)
+(* relation above (TextBad = {}), so that the two halves of the specification   *)
+(* keep each other honest.                                                     *)
+
+\* pass 1 (the measuring callback): per cell the width and the line array
+ImplLinesWidths(c) ==
+  [j \in 1..CellSlots(c) |->
+     IF j <= Len(c.lines)
+     THEN <<c.lines[j][1], IF Len(c.lines) = 1 THEN CellWidth(c) ELSE c.lines[j][2], c.lines[j][2]>>
+     ELSE <<"", 0, 0>>]
+
+ImplRowLines(cells, n) ==
+  LET mx == Min2(Len(cells), n)
+      cols == [i \in 1..mx |-> ImplLinesWidths(cells[i])]
+      cnt == SetMax({1} \cup {Len(cols[i]) : i \in 1..mx})
+  IN [l \in 1..cnt |-> [i \in 1..n |-> IF i <= mx /\ l <= Len(cols[i]) THEN cols[i][l] ELSE <<"", 0, 0>>]]
+
+ImplTemplate(dec, left, horiz, cross, right, widths) ==
+  IF dec.boxless = 1 THEN <<>>
+  ELSE LET n == Len(widths)
+           body == IF n = 0 THEN ""
+                   ELSE LET RECURSIVE Go(_)
+                            Go(i) == IF i > n THEN ""
+                                     ELSE Rep(horiz, widths[i] + 2) \o (IF i < n THEN cross ELSE "") \o Go(i + 1)
+                        IN Go(1)
+       IN << <<left \o body \o right, 1 + SumSeq(widths) + 2 * n + Max2(n - 1, 0) + 1>> >>
+
+ImplContentLine(dec, dl, di, dr, parts, widths, aligns) ==
+  LET n == Len(widths)
+      slot(i) == Pad(parts[i][1], parts[i][2], widths[i], aligns[i])
+      slotw(i) == parts[i][3] + Max2(widths[i] - parts[i][2], 0)
+      RECURSIVE Go(_)
+      Go(i) == IF i > n THEN ""
+               ELSE (IF dec.boxless = 1 THEN (IF i > 1 THEN " " ELSE "") \o slot(i)
+                     ELSE " " \o slot(i) \o " " \o (IF i < n THEN di ELSE dr)) \o Go(i + 1)
+  IN << <<(IF dec.boxless = 1 THEN "" ELSE dl) \o Go(1),
+          SumSeq([i \in 1..n |-> slotw(i)]) + (IF dec.boxless = 1 THEN n - 1 ELSE 3 * n + 1)>> >>
+
+EmitText(st, t, dec) ==
+  LET T == st.tbl[t]
+      n == T.ncols
+      g == dec.g
+      widths == [i \in 1..n |-> ColW(st, T, i)]
+      aligns == [i \in 1..n |-> EffAlign(T, i)]
+      rowlines(cells, dl, di, dr) ==
+        Flatten([l \in 1..Len(ImplRowLines(cells, n)) |->
+                   ImplContentLine(dec, dl, di, dr, ImplRowLines(cells, n)[l], widths, aligns)])
+  IN (IF T.hdrp
+      THEN ImplTemplate(dec, g.TopLeft, g.HOuter, g.HTopDown, g.TopRight, widths)
+           \o rowlines(T.hdr, g.VHeader, g.VHeader, g.VHeader)
+           \o ImplTemplate(dec, g.HBLeft, g.HOuter, g.HBCross, g.HBRight, widths)
+      ELSE ImplTemplate(dec, g.TopLeft, g.HOuter, g.BTopDown, g.TopRight, widths))
+     \o Flatten([k \in 1..Len(T.rows) |->
+           IF st.row[T.rows[k]].sep
+           THEN ImplTemplate(dec, g.LeftBodyRule, g.HRule, g.CrossPiece, g.RightBodyRule, widths)
+           ELSE rowlines(st.row[T.rows[k]].cells, g.VBodyBorder, g.VBodyInner, g.VBodyBorder)])
+     \o ImplTemplate(dec, g.BottomLeft, g.HOuter, g.BBottomUp, g.BottomRight, widths)
+
+\* model-level refinement check: the emitter's output is a correct text table
+EmitTextOK(st, t, dec) ==
+  st.tbl[t].ncols = 0 \/ TextBad(st, t, dec, [lines |-> [l |-> EmitText(st, t, dec), rest |-> ""]]) = {}
+
+-----------------------------------------------------------------------------
+(* Results of calls *)
+
+RenderBad(s, ns, op, res) ==
+  LET t == RenderTbl(s, op)
+      kind == RenderKind(s, op)
+      T == ns.tbl[t]
+  IN IF "status" \notin DOMAIN res THEN {}
+     ELSE IF res.status = "panic" THEN {}     \* reported as res.panic
+     ELSE IF res.status = "error" /\ res.entry = "Render" /\ res.empty # 1 THEN {"out.errtext"}
+     ELSE IF kind = "text" THEN
+        (IF RenderDec(s, op).empty = 1
+         THEN (IF res.status # "error" THEN {"out.text"} ELSE {})         \* C17: fails closed
+         ELSE IF res.status # "ok" THEN {"out.text"}
+         ELSE IF T.ncols = 0 THEN {}
+         ELSE IF TextBad(ns, t, RenderDec(s, op), res) # {} THEN {"out.text"} ELSE {})
+     ELSE {}
+
+BadResMore(s, ns, op, res) ==
+  IF op.op = "render" THEN RenderBad(s, ns, op, res) ELSE {}
 
 \* result of the call itself (op-specific observations): the set of failing parts
 BadRes(s, ns, op, res) ==
@@ -17,7 +276,7 @@ BadRes(s, ns, op, res) ==
        [] f = "res.regerr"  -> op.op = "regcb" /\ "regerr" \in DOMAIN res /\ res.regerr # (IF RegOk(op) THEN 0 ELSE 1)
        [] f = "res.setprop" -> op.op = "setprop" /\ "err" \in DOMAIN res /\ res.err # 0
        [] f = "res.metrics" -> op.op = "measure" /\ "metrics" \in DOMAIN res /\ ~AgreeMetrics(op.parts, res.metrics)
-       [] f = "res.cblog"   -> "cblog" \in DOMAIN res /\ ~AgreeCbLog(s, SlotsOf(s, op), res.cblog)}
+       [] f = "res.cblog"   -> "cblog" \in DOMAIN res /\ ~AgreeCbLog(s, SlotsOfAll(s, op), res.cblog)}
   \cup BadResMore(s, ns, op, res)
 
 \* re-setting keys must not grow an owner's stored state: the chain of a cell is
@@ -28,5 +287,8 @@ AgreeChain(ns, chain) ==
       e[4] <= Cardinality(DOMAIN PropsOf(ns, e[1], e[2], e[3])) + (IF Len(ns.wr) > 0 THEN 3 ELSE 0)
 
 AgreeMore(s, ns, op, f, v) == TRUE
-ExplainMore(ns, op, f) == ""
+
+ExplainMore(s, ns, op, f, res) ==
+  IF f = "out.text" /\ res.status = "ok" /\ RenderDec(s, op).empty = 0 /\ ns.tbl[RenderTbl(s, op)].ncols > 0
+  THEN TextBad(ns, RenderTbl(s, op), RenderDec(s, op), res) ELSE {}
 =============================================================================
